@@ -14,7 +14,9 @@ import (
 	"io"
 	"runtime/debug"
 	"strconv"
+	"strings"
 	"time"
+	"unicode/utf8"
 )
 
 // OrgChecker defines the interface for checking fingerprints.
@@ -314,6 +316,7 @@ func (p *parserDoer) onEntries(labels [][]string, timestampsNS []int64,
 		labels = _labels
 	}
 
+	labels = validUTF8Labels(labels)
 	dates := map[time.Time]bool{}
 	fp := fingerprintLabels(labels)
 
@@ -490,6 +493,18 @@ func withPayloadType(tp int8) buildOption {
 		builder.payloadType = tp
 		return builder
 	}
+}
+
+// validUTF8Labels replaces invalid UTF-8 (raw bytes in a request, or a rune cut in half by the
+// value truncation of sanitizeLabels) by U+FFFD, so that the label document is valid JSON which
+// decodes to the very label set the fingerprint is computed from.
+func validUTF8Labels(lbls [][]string) [][]string {
+	for i, l := range lbls {
+		if !utf8.ValidString(l[0]) || !utf8.ValidString(l[1]) {
+			lbls[i] = []string{strings.ToValidUTF8(l[0], "\uFFFD"), strings.ToValidUTF8(l[1], "\uFFFD")}
+		}
+	}
+	return lbls
 }
 
 func maybeAddFp(date time.Time, fp uint64, fpCache numbercache.ICache[uint64]) bool {
